@@ -175,6 +175,9 @@ def serialise(c, res):
             smt["coi"] = solve.to_smt2(coi, goal)
         else:
             smt["coi_same"] = True
+        near = solve.near_hyps(hyps, goal)
+        if len(near) < len(coi):
+            smt["near"] = solve.to_smt2(near, goal)
         if o.meta.get("clear_goal") is not None:
             base = coi if len(coi) < len(hyps) else hyps
             smt["clear"] = solve.to_smt2(base, o.meta["clear_goal"])
